@@ -645,6 +645,9 @@ func (r *cacheRun) step(w *traceWriter, kind opKind, k int, ttl int64, cost int6
 			r.latest = map[int]int{}
 			if len(post) != 0 {
 				r.viol("C01", desc+" left entries behind")
+				if fenced {
+					r.viol("C04", desc+" returned but writes accepted before it are resident afterwards")
+				}
 			}
 			if len(notifs) != 0 && kind == opClear && !fenced {
 				// notifications staged by writes drained by the barrier are legitimate; entries cleared are not
@@ -675,6 +678,19 @@ func (r *cacheRun) step(w *traceWriter, kind opKind, k int, ttl int64, cost int6
 		for pk, pv := range post {
 			if lv, in := r.latest[pk]; !in || lv != pv {
 				r.viol("C01", fmt.Sprintf("after Sync key %d holds v%d, latest accepted write is v%d (present=%v)", pk, pv, lv, in))
+			}
+		}
+		if r.conf.MaxSize == 0 && r.conf.MaxCost == 0 && !closed {
+			// nothing can be displaced: every write accepted before Sync must be visible now
+			for lk, lv := range r.latest {
+				if dl := r.deadline[lv]; dl != 0 && r.now > dl {
+					continue
+				}
+				if pv, in := post[lk]; !in || pv != lv {
+					for _, p := range []string{"C04", "C01"} {
+						r.viol(p, fmt.Sprintf("Sync returned, the cache has no limits, yet key %d (latest accepted write v%d) reads (v%d,%v)", lk, lv, pv, in))
+					}
+				}
 			}
 		}
 	case opStats:
